@@ -485,6 +485,15 @@ func genAddr(g *core.Gen) {
 			}
 		}
 	}
+	// pay-to-anchor look-alikes: v1 two-byte programs next to 4e73, and 4e73 under other versions / variants
+	for _, prog := range [][]byte{{0x4e, 0x73}, {0x4e, 0x74}, {0x4f, 0x73}, {0x4e, 0x00}, {0x73, 0x4e}, {0x4e}, {0x4e, 0x73, 0x00}} {
+		for ver := 0; ver <= 2; ver++ {
+			for _, m := range []bool{false, true} {
+				hrp := []string{"bc", "tb", "bcrt", "sb"}[r.Intn(4)]
+				g.Case("dec-p2a-near", true, "C16 dec "+ns[r.Intn(len(ns))].name+" "+hx(segwitString(r, hrp, byte(ver), prog, m)))
+			}
+		}
+	}
 	// padding violations inside otherwise valid segwit strings
 	for k := 0; k < g.N(60, 1000); k++ {
 		hrp := []string{"bc", "tb", "bcrt", "sb"}[r.Intn(4)]
